@@ -9,6 +9,8 @@
 
 #include <gudhi/ripser.h>
 
+#include <sys/resource.h>
+
 #ifndef RIPS_VALUE_T
 #define RIPS_VALUE_T float
 #endif
@@ -218,8 +220,23 @@ struct Collector {
 };
 inline T none_value(bool use_max) { return use_max ? std::numeric_limits<T>::max() : std::numeric_limits<T>::infinity(); }
 
+// a defective engine must not take the (shared) machine down: address space capped (allocation failures surface as
+// std::bad_alloc, i.e. as the "exception" of the run), and a run that does not come back within 10 s is reported as a
+// crash with signal 14 by the crash handler
+inline void protect_process() {
+  struct rlimit rl;
+  rl.rlim_cur = rl.rlim_max = static_cast<rlim_t>(4) << 30;
+  setrlimit(RLIMIT_AS, &rl);
+  std::signal(SIGALRM, vf::crash_handler);
+}
+struct Watchdog {
+  Watchdog() { alarm(10); }
+  ~Watchdog() { alarm(0); }
+};
+
 template <class F> inline Run guarded(F&& f) {
   Run r;
+  Watchdog wd;
   try { f(r); }
   catch (const std::exception& ex) { r.exception = std::string(typeid(ex).name()) + ": " + ex.what(); }
   catch (...) { r.exception = "unknown exception"; }
